@@ -200,6 +200,17 @@ def build_jobs(tier, seed):
             ('start = None >> "a"\n', 'None >> "a"', ['a', '']),
     ]:
         jobs.append({'id': len(jobs), 'base': base, 'alts': [(alt, False)], 'inputs': inputs, 'finding_class': 'bare-expression-python-first'})
+    # option values that have to be computed, in both spellings; statements indented as a block next to literals that continue
+    # on the next line (the blanks in front of a continuation line belong to the literal)
+    for base, alt in [
+            ('start = ["<", List("a", min_len=`1+1`, max_len=`2*2`), ">"]\n', 'start = ["<", "a"{`1+1`,`2*2`}, ">"]\n'),
+            ('start = ["<", List("a", max_len=`max(1, 2)`), ">"]\n', 'start = ["<", "a"{,`max(1, 2)`}, ">"]\n'),
+            ('start = ["<", Sep("a", ",", allow_trailer=`not False`), ">"]\n', 'start = ["<", "a" /? ",", ">"]\n'),
+            ("start = [\"<\", (Stanza | Pair)+, \">\"]\nStanza = '''a\n    b''' << /,?/\nPair = /b\n    a/ << /,?/\n",
+             "    start = [\"<\", (Stanza | Pair)+, \">\"]\n    Stanza = '''a\n    b''' << /,?/\n    Pair = /b\n    a/ << /,?/\n"),
+    ]:
+        jobs.append({'id': len(jobs), 'base': base, 'alts': [(alt, False)],
+                     'inputs': ['<' + t + '>' for t in G.all_inputs('a', 5) + ['a,a', 'a,', 'a\n    b', 'a\nb', 'b\n    a,a\n    b', 'b\na']] + ['<', '']})
     # grouping of un-parenthesised operators
     for i in range(n // 2):
         flat, grouped = flat_chain(rng)
